@@ -837,6 +837,7 @@ func (e *commandExtractor) finalize(out *grammar.Grammar, g *lalr.Grammar) {
 	g.Rules = append(g.Rules, e.rules...)
 
 	for i := range e.midrule {
-		out.Parser.Rules = append(out.Parser.Rules, &grammar.Rule{Rule: e.rules[i], Value: e.midrule[i].Value})
+		// Note: like for all other rules, Value is the production itself, not the choice of them.
+		out.Parser.Rules = append(out.Parser.Rules, &grammar.Rule{Rule: e.rules[i], Value: e.midrule[i].Value.Sub[0]})
 	}
 }
